@@ -283,7 +283,7 @@ theorem gen_not_avoided (A : List Name) : ∀ (es : List Event) (s : State) (J :
       exact this
 
 theorem Good.init (S : Name → Prop) (avoid : List Name) (incl : Bool) :
-    Good S (avoid ++ keywords) (State.init avoid incl) [] := by
+    Good S (avoid ++ keywords ++ [selfName]) (State.init avoid incl) [] := by
   refine ⟨trivial, ?_, ?_, ?_, fun n hn => hn⟩
   · simp [State.init, genNames]
   · simp [State.init, genNames]
